@@ -65,6 +65,7 @@ type LetDef struct {
 
 type LoopContract struct {
 	Ordinal    int
+	BodyEnsures []*Clause // checked at every back edge: facts about one iteration (may use calledinloop)
 	Invariants []*Clause
 	Decreases  *Clause
 	Modifies   []*Clause
@@ -126,7 +127,7 @@ type ContractDB struct {
 }
 
 var topKeywords = map[string]bool{"devirt": true, "const": true, "spec": true, "pred": true, "ghost": true, "func": true, "loop": true, "iface": true, "extern": true, "lemma": true}
-var clauseKeywords = map[string]bool{"requires": true, "ensures": true, "modifies": true, "invariant": true, "decreases": true,
+var clauseKeywords = map[string]bool{"requires": true, "ensures": true, "modifies": true, "invariant": true, "bodyensures": true, "decreases": true,
 	"arith": true, "inline": true, "panics": true, "nilable": true, "check": true, "trusted": true, "bounded": true, "updates": true,
 	"yields": true, "unclaimed": true, "props": true, "let": true, "pure": true, "fresh": true, "maxpaths": true, "opt": true,
 	"var": true, "assume": true, "show": true, "step": true}
@@ -326,7 +327,7 @@ func (pc *PkgContracts) addItem(it *rawItem, path string) error {
 		lc := &LoopContract{Ordinal: ord, Line: it.line}
 		for _, c := range it.items {
 			var cl *Clause
-			if c.kw == "invariant" || c.kw == "decreases" {
+			if c.kw == "invariant" || c.kw == "decreases" || c.kw == "bodyensures" {
 				var err error
 				cl, err = mkClause(c, path)
 				if err != nil {
@@ -336,6 +337,8 @@ func (pc *PkgContracts) addItem(it *rawItem, path string) error {
 			switch c.kw {
 			case "invariant":
 				lc.Invariants = append(lc.Invariants, cl)
+			case "bodyensures":
+				lc.BodyEnsures = append(lc.BodyEnsures, cl)
 			case "decreases":
 				lc.Decreases = cl
 			case "modifies":
